@@ -67,6 +67,9 @@ PROPS = {
     "C11": dict(scans=lambda p, s, t: [scan.scan_immutables(p, s, t)]),
     "C13": dict(level="other", extra=lambda prog, S, tier, seed: [__import__("extras").run_child("trace_float_grid", REPO, 20000 if tier == "quick" else 100000),
                                                     __import__("extras").run_child("trace_replay_random", REPO, seed, 300 if tier == "quick" else 3000)]),
+    "C20": dict(level="other", extra=lambda prog, S, tier, seed: [__import__("extras").run_child("snap_float_grid", REPO, 20000 if tier == "quick" else 200000),
+                                                    __import__("extras").run_child("tools_files", REPO, seed, 30 if tier == "quick" else 400),
+                                                    __import__("extras").run_child("sensitivity_seed", REPO)]),
     "C16": dict(scans=_scan_suspend),
     "C17": dict(scans=_scan_suspend),
     "C18": dict(scans=_scan_suspend, native_budget=25),
@@ -90,6 +93,11 @@ def run(pid: str, tier: str, replay: str | None, t0: float) -> int:
     if tier == "thorough":
         os.environ["PYVC_NOCACHE"] = "1"
     prog = Program(REPO)
+    extracted = {}
+    try:
+        extracted = cli.prepare_program(prog)
+    except KeyError as e:
+        print(f"NOTE: {e}")
     S = cli.load_spec()
     fns = cli.functions_for(S, pid)
     if not fns:
